@@ -265,7 +265,33 @@ func ruleRWMemstore(r *Report) {
 			r.Bad(rule, key, fn.Pos(), "deleting a key that only exists in the read store or in tables does not record a tombstone: the delete is lost")
 		}
 	}
-	_ = p
+	// the read store is frozen: it was handed to the flusher, which iterates it without a lock and flushes it exactly once.
+	// No method of RWMemstore calls a mutating method on it
+	{
+		key := rule + "/simpledb.RWMemstore/read-store-frozen"
+		bad := ""
+		n := 0
+		for _, fn := range p.FuncsOfPkg("simpledb") {
+			if fn.Signature.Recv() == nil || !strings.HasSuffix(typeShort(fn.Signature.Recv().Type()), "simpledb.RWMemstore") {
+				continue
+			}
+			n++
+			eachInstr(fn, func(s Site) {
+				c, ok := s.Instr.(ssa.CallInstruction)
+				if !ok || !c.Common().IsInvoke() || !mutatingMethods[c.Common().Method.Name()] {
+					return
+				}
+				if _, f, _, isF := loadOfField(c.Common().Value); isF && f == "readStore" {
+					bad = FuncKey(fn) + " calls " + c.Common().Method.Name() + " on the read store (" + p.Pos(s.Pos()) + ")"
+				}
+			})
+		}
+		if bad != "" {
+			r.Bad(rule, key, 0, bad+": the store is being iterated by the flusher without a lock (a data race), and what is written into it reaches the table only if the flusher has not passed that key yet — at the next rotation it is dropped")
+		} else {
+			r.OK(rule, key, 0, fmt.Sprintf("%d method(s), none mutates the read store", n))
+		}
+	}
 }
 
 // R-reader-rebuilt (C01, C05, C06): whoever changes the live reader list rebuilds the merged reader from it.
@@ -457,6 +483,49 @@ func ruleLatestWinsArgmax(r *Report) {
 			r.OK(rule, key, fn.Pos(), "argmax over the contexts; returns (key, values[argmax])")
 		} else {
 			r.Bad(rule, key, fn.Pos(), "the reducer does not return the value of the largest context (newest table): an older table's value wins")
+		}
+	}
+	// reducers of package simpledb (the tombstone-keeping one): they do not pick a value themselves, they take what the
+	// canonical latest-wins reducer picks from the same (key, values, context) and only replace a nil by an empty value
+	for _, fn := range r.P.FuncsOfPkg("simpledb") {
+		sig := fn.Signature
+		if fn.Parent() != nil || sig.Recv() != nil || sig.Params().Len() != 3 || sig.Results().Len() != 2 || len(fn.Params) != 3 {
+			continue
+		}
+		if typeShort(sig.Params().At(1).Type()) != "[][]byte" || typeShort(sig.Params().At(2).Type()) != "[]int" {
+			continue
+		}
+		key := rule + "/" + FuncKey(fn) + "/delegates"
+		r.Saw(fn)
+		calls := CallsIn(fn, Keys("sstables.ScanReduceLatestWins", "sstables.ScanReduceLatestWinsSkipTombstones"))
+		good := len(calls) == 1
+		if good {
+			a := calls[0].Call().Common().Args
+			for i := 0; i < 3 && i < len(a); i++ {
+				if paramOrigin(a[i]) != fn.Params[i] {
+					good = false
+				}
+			}
+			c := calls[0].Instr.(ssa.Value)
+			for _, rs := range returnsOf(fn) {
+				if !valueDependsOn(rs.Instr.(*ssa.Return).Results[1], func(x ssa.Value) bool {
+					ex, isE := x.(*ssa.Extract)
+					return isE && ex.Tuple == c && ex.Index == 1
+				}) {
+					good = false
+				}
+			}
+		}
+		// … and never index the values by itself
+		eachInstr(fn, func(s Site) {
+			if ia, isI := s.Instr.(*ssa.IndexAddr); isI && paramOrigin(ia.X) == fn.Params[1] {
+				good = false
+			}
+		})
+		if good {
+			r.OK(rule, key, fn.Pos(), "takes the value the canonical latest-wins reducer picks")
+		} else {
+			r.Bad(rule, key, fn.Pos(), "a reduce function of simpledb picks the value by itself instead of taking the canonical reducer's choice for the same (key, values, context): an own arg-max that mixes context values and positions lets an older table's value win in runs of three or more tables")
 		}
 	}
 	if fn := r.NeedFunc(rule, "sstables.ScanReduceLatestWinsSkipTombstones"); fn != nil {
@@ -1909,6 +1978,37 @@ func ruleReadCheckOptionHonoured(r *Report) {
 			}
 		})
 	}
+	// the same for a field an iterator keeps the choice in
+	for _, fn := range p.FuncsOfPkg("sstables") {
+		eachInstr(fn, func(s Site) {
+			st, ok := s.Instr.(*ssa.Store)
+			if !ok {
+				return
+			}
+			_, f, _, isF := fieldAddrName(st.Addr)
+			if !isF || f != "skipHashCheck" {
+				return
+			}
+			n++
+			key := uniqKey(r, rule+"/"+FuncKey(fn)+"/field")
+			r.Saw(fn)
+			good := false
+			if cb, isC := constBool(st.Val); isC && !cb {
+				good = true
+			}
+			if _, lf, _, isL := loadOfField(st.Val); isL && (lf == "skipHashCheckOnRead" || lf == "skipHashCheck") {
+				good = true
+			}
+			if pa, isP := st.Val.(*ssa.Parameter); isP && pa.Name() == "skipHashCheck" {
+				good = true
+			}
+			if good {
+				r.OK(rule, key, s.Pos(), "the per-read verification choice is kept unchanged")
+			} else {
+				r.Bad(rule, key, s.Pos(), "the per-read verification switch an iterator keeps is not the caller's option as it is (a sibling option, or an expression): with SkipHashCheckOnLoad + EnableHashCheckOnReads this scan serves damaged payloads while the other read paths of the same reader fail properly")
+			}
+		})
+	}
 	if n == 0 {
 		r.Missing(rule, rule+"/none", "no consumer of a skipHashCheck parameter found")
 	}
@@ -1929,4 +2029,235 @@ func reachesFromSyncFailure(fn, g *ssa.Function) bool {
 		}
 	}
 	return res
+}
+
+// R-bloom-size-validated (C03, C01): NewSSTableStreamWriter rejects an expected element count of zero, because
+// bloomfilter.NewOptimal(0, p) panics in Open (makeslice: len out of range). The check runs once, in the constructor:
+// a later assignment to the option (a "dimension it from what we are about to write") escapes it.
+func ruleBloomSizeValidated(r *Report) {
+	const rule = "bloom-size-validated"
+	r.Rule(rule, 1, "the option field bloomExpectedNumberOfElements is assigned only in the option function and in the constructor's defaults — nowhere after the constructor's positivity check")
+	p := r.P
+	key := rule + "/sstables.SSTableWriterOptions.bloomExpectedNumberOfElements"
+	bad := ""
+	n := 0
+	for _, fn := range p.FuncsOfPkg("sstables") {
+		eachInstr(fn, func(s Site) {
+			st, ok := s.Instr.(*ssa.Store)
+			if !ok {
+				return
+			}
+			_, f, base, isF := fieldAddrName(st.Addr)
+			if !isF || f != "bloomExpectedNumberOfElements" {
+				return
+			}
+			n++
+			// the constructor's literal (a fresh allocation), or the option closure writing into the options it is handed
+			if _, fresh := base.(*ssa.Alloc); fresh {
+				return
+			}
+			if po := paramOrigin(base); po != nil && fn.Parent() != nil && fn.Signature.Params().Len() == 1 && fn.Signature.Results().Len() == 0 {
+				return // func(args *SSTableWriterOptions) { args.x = n }
+			}
+			bad = FuncKey(fn) + " at " + p.Pos(s.Pos())
+		})
+	}
+	if n == 0 {
+		r.Missing(rule, key, "no assignment of the option found")
+	} else if bad != "" {
+		r.Bad(rule, key, 0, "the expected element count of the bloom filter is assigned behind the constructor's check ("+bad+"): writing an empty input (length 0 is a legal table) sets it to 0 and Open panics in bloomfilter.NewOptimal instead of producing an empty table")
+	} else {
+		r.OK(rule, key, 0, fmt.Sprintf("%d assignment(s), all before the constructor's check", n))
+	}
+}
+
+// R-guarded-escape (C18, C05): a guarded slice or map must not leave its critical section by reference. The live reader
+// list is changed in place (elements are overwritten and shifted when a compaction is reflected), so a function that
+// returns the field itself under a deferred unlock hands its caller a view that changes under it; two such calls give two
+// lists of different length.
+func ruleGuardedEscape(r *Report) {
+	const rule = "guarded-escape"
+	r.Rule(rule, 1, "no function of package simpledb returns a guarded slice or map field itself (SSTableManager.allSSTableReaders): whoever needs the elements reads them inside one critical section or gets a copy")
+	p := r.P
+	n := 0
+	bad := ""
+	var pos Site
+	for _, fn := range p.FuncsOfPkg("simpledb") {
+		for _, rs := range returnsOf(fn) {
+			for _, res := range rs.Instr.(*ssa.Return).Results {
+				switch res.Type().Underlying().(type) {
+				case *types.Slice, *types.Map:
+				default:
+					continue
+				}
+				cands := []ssa.Value{res}
+				// a function with a defer spills its result into a cell before the deferred calls run
+				if u, isU := res.(*ssa.UnOp); isU && u.Op == token.MUL && isCell(u.X) {
+					if vals, _ := reachingStores(u); len(vals) > 0 {
+						cands = append(cands, vals...)
+					}
+				}
+				for _, cv := range cands {
+					if cv == nil || cv == zeroMarker {
+						continue
+					}
+					t, f, _, ok := loadOfField(cv)
+					if !ok {
+						continue
+					}
+					for _, g := range guardTable {
+						if g.typ == t && g.field == f {
+							bad = fmt.Sprintf("%s returns %s.%s itself (%s)", FuncKey(fn), t, f, p.Pos(rs.Pos()))
+							pos = rs
+						}
+					}
+				}
+			}
+		}
+		n++
+	}
+	key := rule + "/simpledb"
+	if bad != "" {
+		r.Bad(rule, key, pos.Pos(), bad+": the caller iterates the live list outside the lock while the flusher appends to it and a reflected compaction rewrites it in place — two reads give lists of different length (index out of range in the compaction goroutine, the process ends)")
+	} else {
+		r.OK(rule, key, 0, fmt.Sprintf("%d function(s) examined, none returns a guarded slice or map", n))
+	}
+}
+
+// R-swap-after-rotate (C05, C01, C02): the rotation first starts the next WAL file, then takes the write store out of
+// service and hands it to the flusher in one go. A swap in front of a Rotate that can fail leaves a full memstore as
+// read store that nobody was told to flush: the next successful rotation drops it and the flush after that removes its WAL
+// files — acknowledged writes are gone without a Delete.
+func ruleSwapAfterRotate(r *Report) {
+	const rule = "swap-after-rotate"
+	r.Rule(rule, 1, "in rotateWalAndFlushMemstore the memstore swap is reached only through the success edge of wal.Rotate, and no return is reachable after the swap without the hand-over to the flusher")
+	fn := r.NeedFunc(rule, "simpledb.DB.rotateWalAndFlushMemstore")
+	if fn == nil {
+		return
+	}
+	o := &order{r, r.P}
+	rot := CallsIn(fn, Suffix("WriteAheadLogI.Rotate", "WriteAheadLogAppendI.Rotate", "Appender.Rotate"))
+	swaps := CallsIn(fn, Keys("simpledb.swapMemstore"))
+	key := rule + "/simpledb.DB.rotateWalAndFlushMemstore"
+	if len(rot) == 0 || len(swaps) == 0 {
+		r.Unk(rule, key, fn.Pos(), "rotation or swap not found")
+		return
+	}
+	o.OnlyAfterSuccess(rule, key, fn, "wal.Rotate", rot, "the memstore swap", swaps, nil)
+	// hand-over: every return behind the swap passes the send
+	var sends []Site
+	eachInstr(fn, func(s Site) {
+		if _, ok := s.Instr.(*ssa.Send); ok {
+			sends = append(sends, s)
+		}
+	})
+	hkey := key + "/handed-over"
+	removed := map[Edge]bool{}
+	for _, sd := range sends {
+		for _, su := range sd.Block.Succs {
+			removed[Edge{sd.Block, su}] = true
+		}
+	}
+	bad := false
+	for _, sw := range swaps {
+		for _, rs := range returnsOf(fn) {
+			inSend := false
+			for _, sd := range sends {
+				if sd.Block == rs.Block {
+					inSend = true
+				}
+			}
+			if inSend || rs.Block == sw.Block && len(sends) > 0 && sends[0].Block == sw.Block {
+				continue
+			}
+			reach := false
+			for _, su := range sw.Block.Succs {
+				if reachFrom(su, removed)[rs.Block] {
+					reach = true
+				}
+			}
+			if rs.Block == sw.Block {
+				reach = true
+			}
+			if reach {
+				bad = true
+			}
+		}
+	}
+	if bad || len(sends) == 0 {
+		r.Bad(rule, hkey, swaps[0].Pos(), "a return is reachable behind the memstore swap without the hand-over to the flusher: the swapped-out memstore is dropped unflushed by the next rotation")
+	} else {
+		r.OK(rule, hkey, swaps[0].Pos(), "swap and hand-over are inseparable")
+	}
+}
+
+// R-fits-without-sum (C04, C18): the sizes of a record header are not trustworthy before they were compared with the
+// file (the random-access reader parses a header wherever it sees the marker, also inside a payload). A sum with such a
+// size can wrap around 2^64 and pass a "<= file size" test; the comparison has to keep the untrusted size alone on one
+// side (size > fileSize - start).
+func ruleFitsWithoutSum(r *Report) {
+	const rule = "fits-without-sum"
+	r.Rule(rule, 1, "in MMapReader.checkRecordFits no payload size taken from the record header is an operand of an addition: it is compared as it is with what is left of the file")
+	fn := r.NeedFunc(rule, "recordio.MMapReader.checkRecordFits")
+	if fn == nil {
+		return
+	}
+	key := rule + "/recordio.MMapReader.checkRecordFits"
+	isSize := func(v ssa.Value) bool {
+		return valueDependsOn(v, func(x ssa.Value) bool {
+			pa, ok := x.(*ssa.Parameter)
+			return ok && pa.Parent() == fn && strings.HasPrefix(pa.Name(), "payloadSize")
+		})
+	}
+	bad := ""
+	eachInstr(fn, func(s Site) {
+		bo, ok := s.Instr.(*ssa.BinOp)
+		if !ok || (bo.Op != token.ADD && bo.Op != token.MUL && bo.Op != token.SHL) {
+			return
+		}
+		if bt, isB := bo.Type().Underlying().(*types.Basic); !isB || bt.Info()&types.IsInteger == 0 {
+			return
+		}
+		if isSize(bo.X) || isSize(bo.Y) {
+			bad = r.P.Pos(bo.Pos())
+		}
+	})
+	if bad != "" {
+		r.Bad(rule, key, fn.Pos(), "a payload size from the record header is added up before it was bounded ("+bad+"): a header embedded in a payload with a size near 2^64 makes the sum wrap, the check passes, and SeekNext from inside that record panics (makeslice: len out of range) instead of returning the next record")
+	} else {
+		r.OK(rule, key, fn.Pos(), "the header's sizes are only compared, never summed")
+	}
+}
+
+// R-stack-keeps-every-reader (C19, C08): the stacked reader is the owner view of the live tables — DB.Close releases the
+// tables through it. A constructor that leaves readers out (tables without records) leaves them open for good.
+func ruleStackKeepsEveryReader(r *Report) {
+	const rule = "stack-keeps-every-reader"
+	r.Rule(rule, 1, "NewSuperSSTableReader keeps the slice of readers it is given as it is (its Close and the owner's Close go through it)")
+	fn := r.NeedFunc(rule, "sstables.NewSuperSSTableReader")
+	if fn == nil {
+		return
+	}
+	key := rule + "/sstables.NewSuperSSTableReader"
+	ok := false
+	n := 0
+	eachInstr(fn, func(s Site) {
+		st, isS := s.Instr.(*ssa.Store)
+		if !isS {
+			return
+		}
+		if t, f, _, isF := fieldAddrName(st.Addr); isF && t == "sstables.SuperSSTableReader" && f == "readers" {
+			n++
+			if len(fn.Params) > 0 && paramOrigin(st.Val) == fn.Params[0] {
+				ok = true
+			} else {
+				ok = false
+			}
+		}
+	})
+	if n == 1 && ok {
+		r.OK(rule, key, fn.Pos(), "readers: the parameter itself")
+	} else {
+		r.Bad(rule, key, fn.Pos(), "the stacked reader does not keep the readers it was given as they are (a filtered or rebuilt list): DB.Close closes the tables through this view, a table that was left out — e.g. one without records after a compaction dropped everything — keeps its mapping after Close")
+	}
 }
